@@ -268,12 +268,16 @@ def gen_steps(rng, names, n):
 def with_kinds(rng, A, session=False):
     A["vk"] = rng.choice(["f64", "f64", "view", "fortran", "ro"] if session else VKINDS); A["ik"] = rng.choice(IKINDS)
     return A
-def gen_array_k(rng, session=False):
+def gen_array_k(rng, session=False, vk=None):
     """an ArrayTriangles input with its storage kinds; integer storage needs integer coordinates"""
-    vk = rng.choice(["f64", "f64", "view", "fortran", "ro"] if session else VKINDS)
+    if vk is None: vk = rng.choice(["f64", "f64", "view", "fortran", "ro"] if session else VKINDS)
     if vk == "int":
-        sc = Fraction(4 * 2 ** (0 if rng.random() < 0.7 else rng.randint(1, 12)))       # at 4 the midpoints are half-integers
+        # mostly the smallest integer scale, every coordinate jittered by 0 / 1: corner sums are odd, midpoints half-integers
+        # (a result buffer that inherits the integer dtype truncates them)
+        small = rng.random() < 0.75
+        sc = Fraction(4 * 2 ** (0 if small else rng.randint(1, 12)))
         A = gen_array(rng, sc=sc, off=[sc * rng.randint(-6, 6), sc * rng.randint(-6, 6)])
+        if small: A["verts"] = [[S(F(v[0]) + rng.randint(0, 1)), S(F(v[1]) + rng.randint(0, 1))] for v in A["verts"]]
     elif vk == "f32":
         sc = pick_scale(rng)
         A = gen_array(rng, sc=sc, off=[sc * Fraction(rng.randint(-24, 24), 4), sc * Fraction(rng.randint(-24, 24), 4)])
@@ -294,13 +298,15 @@ def gen_coord_k(rng, small=False, sc=None):
 def gen_inputs(tier, rng):
     big = tier == "thorough"
     n = 300 if big else 24
+    KCYCLE = ["f64", "int", "f32", "view", "f64", "fortran", "ro", "irr", "int"]       # every storage kind in every run
+    SCYCLE = ["arr", "list", "neg", "bool", "i32", "ro", "arr"]
     for i in range(n):
-        A = gen_array_k(rng)
+        A = gen_array_k(rng, vk=KCYCLE[i % len(KCYCLE)])
         for op in ("a_tris", "a_up", "a_nbr"):
             yield dict(A, op=op)
         nt = len(A["idx"])
-        yield dict(A, op="a_for", sel=[rng.randrange(nt) for _ in range(rng.randint(0, nt + 1))], selk=rng.choice(SELKINDS),
-                   seed=rng.randrange(10 ** 9))
+        yield dict(A, op="a_for", sel=[rng.randrange(nt) for _ in range(rng.randint(0 if i % 7 == 0 else 1, nt + 1))],
+                   selk=SCYCLE[i % len(SCYCLE)], seed=rng.randrange(10 ** 9))
         sc, off = F(A["sc"]), [F(A["off"][0]), F(A["off"][1])]
         yield dict(A, op="a_with", verts2=[place(rand_pt(rng), sc, off) for _ in A["verts"]])
         for _ in range(2): yield dict(A, op="a_contain", shape=gen_shape(rng))
@@ -318,7 +324,7 @@ def gen_inputs(tier, rng):
         C = gen_coord_k(rng)
         for op in ("c_tris", "c_up", "c_nbr", "c_repr"):
             yield dict(C, op=op)
-        yield dict(C, op="c_for", selseed=rng.randrange(10 ** 9), selk=rng.choice(SELKINDS))
+        yield dict(C, op="c_for", selseed=rng.randrange(10 ** 9), selk=SCYCLE[(i + 3) % len(SCYCLE)])
         for _ in range(2): yield dict(C, op="c_contain", shape=gen_shape(rng))
         yield dict(C, op="c_contain", shape=gen_shape(rng, want=True))
     # directed: every (lattice parity, flipped) state of a single cell and of an edge-sharing pair, through every operation
